@@ -120,6 +120,20 @@ class SConst(Val):
 
 
 @dataclass
+class SDictSlot(Val):
+    """d[k] of a defaultdict(list) whose lists are modelled by value (dict kind str -> 'vlist'): a view that append() updates in place"""
+    d: Any
+    key: Any
+
+
+@dataclass
+class SMatch(Val):
+    """result of PATTERN.match(s): truthiness = MATCHES_<pattern>(s); groups are uninterpreted functions of s"""
+    rx: str
+    s: Any
+
+
+@dataclass
 class SSplit(Val):
     """s.split(sep, 1): one or two parts depending on whether sep occurs in s"""
     s: Any
